@@ -1084,6 +1084,7 @@ func (vc *VC) havocAllHeap(st *State) {
 			continue
 		}
 		arr := v.Arr
+		vc.assumptions["local slice "+lv.Name()+" has not escaped at "+vc.w.pos(vc.curCall.Pos())+": its elements survive the callee's heap effects (syntactic escape check)"] = true
 		vc.leafComps(elemCompPrefix(sl.Elem()), sl.Elem(), 2, func(comp, sort string) {
 			kept = append(kept, keptRow{comp, sort, arr, vc.heapGet(st, comp, sort)})
 		})
